@@ -34,9 +34,9 @@ func checkC07(c *Ctx) {
 	}, "topic-store/session")
 
 	g := c.handlerGraph()
-	treeSub := ev{"tree Subscribe", mMethod(pkgTopics, "Manager", "Subscribe")}
-	treeUnsub := ev{"tree Unsubscribe", mMethod(pkgTopics, "Manager", "Unsubscribe")}
-	retainedSend := ev{"retained delivery", mAny(mCallee(c.P.Func("service", "service", "publish")), mAnd(mCallee(r.RingWrite), mArgDyn(1, "PublishMessage")))}
+	treeSub := ev{name: "tree Subscribe", m: mMethod(pkgTopics, "Manager", "Subscribe")}
+	treeUnsub := ev{name: "tree Unsubscribe", m: mMethod(pkgTopics, "Manager", "Unsubscribe")}
+	retainedSend := ev{name: "retained delivery", m: mAny(mCallee(c.P.Func("service", "service", "publish")), mAnd(mCallee(r.RingWrite), mArgDyn(1, "PublishMessage")))}
 	suback := c.evAckWrite("SubackMessage")
 	unsuback := c.evAckWrite("UnsubackMessage")
 	// P6: always acknowledged
@@ -66,7 +66,7 @@ func checkC07(c *Ctx) {
 func (c *Ctx) afterNever(g *paths.Graph, from []paths.Node, key string, a, b ev, pos, bad string) {
 	var an []paths.Node
 	g.FindPath(from, nil, func(n paths.Node) bool {
-		if nodeM(a.m)(n) {
+		if a.node()(n) {
 			an = append(an, n)
 		}
 		return false
@@ -79,7 +79,7 @@ func (c *Ctx) afterNever(g *paths.Graph, from []paths.Node, key string, a, b ev,
 	for _, n := range an {
 		start = append(start, g.Succ(n)...)
 	}
-	if p := g.FindPath(start, nil, nodeM(b.m)); p != nil {
+	if p := g.FindPath(start, nil, b.node()); p != nil {
 		c.R.Bad(ruleP5, key, pos, bad, c.witness(g, p)...)
 	} else {
 		c.R.Ok(ruleP5, key, pos, "no "+b.name+" is reachable after "+a.name)
@@ -88,7 +88,7 @@ func (c *Ctx) afterNever(g *paths.Graph, from []paths.Node, key string, a, b ev,
 
 // beforeAlways: every b is preceded by a.
 func (c *Ctx) beforeAlways(g *paths.Graph, from []paths.Node, key string, a, b ev, pos, bad string) {
-	if p := g.FindPath(from, nodeM(a.m), nodeM(b.m)); p != nil {
+	if p := g.FindPath(from, a.node(), b.node()); p != nil {
 		c.R.Bad(ruleP5, key, pos, bad, c.witness(g, p)...)
 	} else {
 		c.R.Ok(ruleP5, key, pos, "every "+b.name+" is preceded by "+a.name)
